@@ -381,7 +381,7 @@ Section Model.
     else if contains_sub "u" elt then
       do v <- pop1 rest;
       do x <- of_opt EValue (fl P v);
-      Ok (mkKws (k_imp k) (k_fbounds k) (k_funivs k) (k_fparams k) (k_lat k) (k_trcl k) (Some (tz P x)) (k_rho k) (k_mat k), 1%nat)
+      Ok (mkKws (k_imp k) (k_fbounds k) (k_funivs k) (k_fparams k) (k_lat k) (k_trcl k) (Some (Z.abs (tz P x))) (k_rho k) (k_mat k), 1%nat)   (* abs(int(float(v))): U=-n is universe n *)
     else if contains_sub "rho" elt then
       do v <- pop1 rest;
       Ok (mkKws (k_imp k) (k_fbounds k) (k_funivs k) (k_fparams k) (k_lat k) (k_trcl k) (k_u k) (Some v) (k_mat k), 1%nat)
